@@ -246,7 +246,7 @@ impl Sess {
                 let mut sb = [0u8; 32];
                 t.challenge_bytes(b"session-id-a", &mut sa);
                 t.challenge_bytes(b"session-id-b", &mut sb);
-                let mut r = rng(s.seed, &s.send_stream());
+                let mut r = tape_rng(s.seed, &s.send_stream());
                 let mut m1a = EndemicOTMsg1::default();
                 let mut m1b = EndemicOTMsg1::default();
                 bytemuck::bytes_of_mut(&mut m1a).copy_from_slice(&s.msg1[..EOT_BYTES]);
@@ -371,6 +371,19 @@ fn substitutions(s: &Sess, other_session: &Sess, other_run: &Sess, r: &mut impl 
             push(if want { "row-overwrite-bit1" } else { "row-overwrite-bit0" }, format!("a_tilde row {j} (beta_j = {}) overwritten with random bytes", want as u8), m);
         }
     }
+    // compensating alterations: the same XOR mask in two (or all) bytes of one field -- what a comparison that folds the
+    // byte differences with xor instead of or lets through
+    for (name, start, len) in [("mu_hash", off + MU_OFF, 64usize), ("eta", off + ETA_OFF, 32), ("a_tilde-row0", off, 96), ("a_tilde-row511", off + (XI - 1) * 96, 96)] {
+        for (k1, k2, mask) in [(0usize, 1usize, 1u8), (0, len - 1, 0x80), (len / 2 - 1, len / 2, 0xff)] {
+            let mut m = msg.clone();
+            m[start + k1] ^= mask;
+            m[start + k2] ^= mask;
+            push(&format!("compensating-{}", name.split('-').next().unwrap()), format!("{name} bytes {k1},{k2} ^= {mask:02x}"), m);
+        }
+        let mut m = msg.clone();
+        for k in 0..len { m[start + k] ^= 0x01; }
+        push(&format!("compensating-{}", name.split('-').next().unwrap()), format!("{name}: every byte ^= 01"), m);
+    }
     // fields
     let mut m = msg.clone();
     m[off + ETA_OFF..off + ETA_OFF + 32].fill(0);
@@ -449,7 +462,7 @@ fn judge_transit(s: &Sess, p: &Probe, res: &Result<[Scalar; 2], String>, rep: &m
 
 /// deterministic expectations for some probe kinds (beyond "Err or intact")
 fn judge_expected(s: &Sess, p: &Probe, res: &Result<[Scalar; 2], String>, rep: &mut Report) {
-    let expect_err = p.kind == "bit-mu_hash" || p.kind == "field-mu-zero" || p.kind == "ot-point-undecodable";
+    let expect_err = p.kind == "bit-mu_hash" || p.kind == "field-mu-zero" || p.kind == "ot-point-undecodable" || p.kind == "compensating-mu_hash";
     if expect_err && res.is_ok() {
         rep.oracle.push(format!("{} must be rejected unconditionally but was accepted: {} -- {}", p.kind, p.what, s.describe()));
     }
